@@ -24,11 +24,15 @@ BODIES = {
     "cmp-partial-only": ("{ #[ord(key = kk::<3, _>(&$))] pub a: u8, #[partial_ord(reverse)] pub b: u8 }",
                          ["PartialEq", "PartialOrd"], "{ a: v[0], b: v[1] }", "pcmp"),
     "hash-only": ("{ #[eq(key = kk::<1, _>(&$))] pub a: u8, #[ord(ignore)] pub b: u8, pub c: u8 }", ["Hash"], "{ a: v[0], b: v[1], c: v[2] }", "hash"),
+    "enum-cmp": ("ENUM { A, B(#[ord(key = kk::<1, _>(&$))] u8, #[eq(ignore)] #[ord(ignore)] u8), C { #[ord(reverse)] a: u8 } }",
+                 ["PartialEq", "Eq", "PartialOrd", "Ord", "Hash"], "ENUM", "cmp"),
     "clone-default": ("{ #[default(sd(0))] pub a: u8, #[default(K0)] pub m: M, pub r: R }", ["Clone", "Default"], None, "clone-default"),
 }
 
 
 def type_text(name, body, pre):
+    if body.startswith("ENUM"):
+        return "%s\npub enum %s %s\n" % ("\n".join(pre), name, body[4:])
     return "%s\npub struct %s %s\n" % ("\n".join(pre), name, body)
 
 
@@ -52,7 +56,7 @@ def build(name, body_id, rnd, tier, superset=False):
     vs = variants_of(traits, rnd, tier)
     if superset:
         extra = [t for t in ("Clone", "Debug", "Copy") if t not in traits]
-        if "Default" not in traits and kind != "clone-default":
+        if "Default" not in traits and kind != "clone-default" and not body.startswith("ENUM"):
             extra.append("Default")
         if kind == "clone-default":
             extra = ["Debug"]
@@ -72,7 +76,12 @@ def build(name, body_id, rnd, tier, superset=False):
     b = []
     if kind in ("cmp", "pcmp", "hash"):
         b += ["    let v = [s.u8(), s.u8(), s.u8()];", "    let w = [s.u8(), s.u8(), s.u8()];"]
-        for tn in names:
+        if ctor == "ENUM":
+            b += ["    let (sx, sy) = (s.below(3), s.below(3));"]
+            for tn in names:
+                mk = lambda sel, vv: "match %s { 0 => %s::A, 1 => %s::B(%s[0], %s[1]), _ => %s::C { a: %s[2] } }" % (sel, tn, tn, vv, vv, tn, vv)
+                b.append("    let (x_%s, y_%s) = (%s, %s);" % (tn, tn, mk("sx", "v"), mk("sy", "w")))
+        for tn in (names if ctor != "ENUM" else []):
             b.append("    let (x_%s, y_%s) = (%s %s, %s %s);" % (tn, tn, tn, ctor, tn, ctor.replace("v[", "w[")))
         t0n = names[0]
         for tn in names[1:]:
